@@ -179,7 +179,7 @@ def explore(ctx, shape, tier, report):
         report.path(True)
         info.update(sql1=sql1, sql2=sql2, syms1=syms1, syms2=syms2)
         if sql1.lit is not None and sql2.lit is not None:
-            if sql1.lit != sql2.lit:
+            if sql1.lit != sql2.lit or ctx.check_sat(sql1.as_seq() != sql2.as_seq()) is not None:
                 raise Inconclusive('two runs on the same structure gave different concrete SQL')
             report.witness('sql-independent-of-values')
         else:
@@ -200,6 +200,12 @@ def explore(ctx, shape, tier, report):
         if syms1 and not ok_bound:
             report.violation(ctx, ctx.check_sat(True), 'literal-value-not-bound', info)
             return
+        for s in syms1:
+            # the bound parameter is the value, byte for byte
+            if ctx.check_sat(zand(*[b.as_seq() != s.as_seq() for b in bound1 if b.seq is not None or b.lit is not None])) is not None and \
+                    all(ctx.check_sat(b.as_seq() == s.as_seq()) is None for b in bound1):
+                report.violation(ctx, ctx.check_sat(True), 'literal-value-not-bound', info)
+                return
         report.witness('values-bound-as-parameters')
 
     ctx.explore(path)
